@@ -442,6 +442,16 @@ theorem issuer_revoke_shortcut_cex :
     (issuerRevokeShortcut (issuerRevokeShortcut {} 2).1 0).1.crl = false := by decide
 
 open Obao.PKIReport in
+/-- **Finding F109 (repaired)**: `issuer_revoke_reported_after_retry` is about the procedure that writes the `revoked/`
+entry UNCONDITIONALLY; with the entry written only when the issuer's certificate is in the mount's certificate store,
+the fault-free revocation of an imported issuer answers success while the channels that read the entry (status API,
+OCSP) — and a CRL built from the entries — never show it. -/
+theorem issuer_revoke_if_stored_cex :
+    (issuerRevokeIfStored false {} 0).2 = true ∧ (issuerRevokeIfStored false {} 0).1.entry = false ∧
+    (issuerRevokeIfStored false {} 0).1.crl = false ∧
+    (issuerRevokeIfStored true {} 0).1.entry = true := by decide
+
+open Obao.PKIReport in
 /-- **`config/crl`: once the switch to a state that needs a current CRL has been reported successful — at the first
 attempt or at a retry after any failing write — the served CRL lists every serial whose revocation was reported
 before.** -/
